@@ -6,4 +6,6 @@ WT=$1; P=$2; PROP=$3; TIER=${4:-quick}
 git -C $WT checkout -q -- . && git -C $WT checkout -q --detach main && git -C $WT apply $P || { echo "TRIAL apply failed"; exit 2; }
 cd /verif && VERIF_REPO=$WT timeout 3000 ./check $PROP --tier $TIER; RC=$?
 git -C $WT checkout -q -- .
+# scratch build output of the trial (harness target dir, shards) is removed again
+rm -rf /verif/.build/alt_* /verif/.build/target-avx2_alt_* /verif/.build/target_alt_*
 echo "TRIAL prop=$PROP patch=$P rc=$RC"
